@@ -121,5 +121,5 @@ Next == /\ phase = 0 /\ phase' = 1
                 \/ Depth >= 2 /\ \E f2 \in Faults(r1) : Applicable(r1, f2) /\ f1.t # "none" /\ f2.t # "none" /\
                      \E name \in {"validate", "typed"} : vec' = Ev(name, Apply(r1, f2))
            \/ \E f1 \in PFaults, f2 \in PFaults : vec' = PEv(PApply(PApply(PBase, f1), f2))
-Emit == phase = 1 => PrintT(<<"VEC", ToJson(vec)>>)
+Emit == phase = 1 => PrintT("VEC " \o ToJson(vec))
 =============================================================================
